@@ -9,20 +9,34 @@ them on the ideal heap multiset and the ideal event registry, and the verdict is
 -/
 namespace Percival.Driver.Afmon
 open Percival.Driver Percival.Spec.AfMon
-open Percival.Driver.Dsmon (field natField)
+open Percival.Driver.Dsmon (splitCh)
 
 def parseHead : String → Head
   | "ok" => .ok | "fail" => .fail | "skip" => .skip | "end" => .end_ | "exists" => .exists_ | "noent" => .noent
   | _ => .other
 
+/-- the value of the token `t` if it is `<key>=<value>` (also used by `Driver/Upmon.lean`) -/
+def kvOf (t key : String) : Option String :=
+  let p := (key ++ "=").toList
+  if p.isPrefixOf t.toList then some (String.ofList (t.toList.drop p.length)) else none
+
+/-- value of the first `key=value` among the answer tokens -/
+def field (ans : List String) (key : String) : Option String := ans.findSome? (kvOf · key)
+
+def natField (ans : List String) (key : String) : Option Nat := (field ans key).bind String.toNat?
+
+/-- `-`: no id; otherwise numbers separated by `,` -/
 def parseIds (s : String) : Option (List Nat) :=
-  if s = "-" then some [] else (s.splitOn ",").mapM String.toNat?
+  if s = "-" then some [] else (splitCh ',' s).mapM String.toNat?
 
 /-- the number of the word `key=<number>` -/
-def numOf (key : String) (tok : Option String) : Option Nat :=
-  match tok with
-  | some t => if t.startsWith (key ++ "=") then (t.drop (key.length + 1)).toString.toNat? else none
-  | none => none
+def numOf (key : String) (tok : Option String) : Option Nat := (tok.bind (kvOf · key)).bind String.toNat?
+
+/-- the `id=` field: absent, `id=none`, a number, or unreadable -/
+def parseId : Option String → IdFld
+  | none => .absent
+  | some "none" => .none_
+  | some x => match x.toNat? with | some e => .val e | none => .bad
 
 def parseAns (toks : List String) : Ans :=
   match toks with
@@ -31,10 +45,7 @@ def parseAns (toks : List String) : Ans :=
     { head := parseHead h
       ntoks := toks.length
       rf := natField toks "rf"
-      id := match field toks "id" with
-        | none => .absent
-        | some "none" => .none_
-        | some x => match x.toNat? with | some e => .val e | none => .bad
+      id := parseId (field toks "id")
       ran := (field toks "ran").map parseIds
       live := numOf "live" toks[1]?
       leaked := numOf "leaked" toks[2]? }
